@@ -3,8 +3,8 @@ import ast
 
 from .. import poly
 from ..poly import Poly
-from ..interp import Arr, Pose, Obj, ClassRef, VFile, PathRaise, PI
-from ..algebra import run_obligation, run_tasks, record, ObFail, CDIM
+from ..interp import ga, sa, Arr, Pose, Obj, ClassRef, VFile, PathRaise, PI
+from ..algebra import custom_edge, run_obligation, run_tasks, record, ObFail, CDIM
 from ..g2o import VOCABULARY, eq_poly, same_vertex, same_edge, same_param, mark_int, no_int_through_float
 from .c13 import read_line, READERS
 from .c18 import distinct_names_hook
@@ -71,10 +71,10 @@ def reader_obligation(tag, sepname):
             mark_int(it, vals[0])
             line = make_line(it, tag, vals, sep, end)
             rcls, obj = read_line(it, line, expect="Vertex")
-            if not eq_poly(it, obj.fields.get("id"), vals[0]):
+            if not eq_poly(it, ga(obj, "id", None), vals[0]):
                 raise ObFail("vertex id is not the first number of the line")
-            check_pose(it, obj.fields.get("pose"), cls, vals[1:], "%s pose" % tag)
-            if obj.fields.get("fixed") not in (False,):
+            check_pose(it, ga(obj, "pose", None), cls, vals[1:], "%s pose" % tag)
+            if ga(obj, "fixed", None) not in (False,):
                 raise ObFail("imported vertex is marked fixed")
         elif kind == "odometry":
             _, cls, npose, ninfo = spec
@@ -100,11 +100,11 @@ def reader_obligation(tag, sepname):
             line = make_line(it, tag, vals, sep, end)
             rcls, obj = read_line(it, line, params, expect="EdgeLandmark")
             check_edge_common(it, obj, vals, nid, cls, npose, ninfo, tag)
-            off = obj.fields.get("offset")
+            off = ga(obj, "offset", None)
             if ptag:
                 if off is not offset:
                     raise ObFail("%s: the offset is not the value of the parameter whose id is on the line" % tag)
-                if not eq_poly(it, obj.fields.get("offset_id"), vals[2]):
+                if not eq_poly(it, ga(obj, "offset_id", None), vals[2]):
                     raise ObFail("%s: offset_id is not the parameter id on the line" % tag)
             else:
                 ident = it.call_classmethod(ClassRef("PoseSE2"), "identity", [])
@@ -115,20 +115,20 @@ def reader_obligation(tag, sepname):
             mark_int(it, vals[0])
             line = make_line(it, tag, vals, sep, end)
             rcls, obj = read_line(it, line)
-            key = obj.fields.get("key")
+            key = ga(obj, "key", None)
             if not (isinstance(key, tuple) and len(key) == 2 and key[0] == tag and eq_poly(it, key[1], vals[0])):
                 raise ObFail("%s: key is %r, expected (%r, <id on the line>)" % (tag, key, tag))
-            check_pose(it, obj.fields.get("value"), cls, vals[1:], "%s value" % tag)
+            check_pose(it, ga(obj, "value", None), cls, vals[1:], "%s value" % tag)
         return dict(tag=tag, separators=sepname, numbers=len(vals))
     return lambda pkg: run_obligation(pkg, fn)
 
 
 def check_edge_common(it, obj, vals, nid, cls, npose, ninfo, tag):
-    ids = obj.fields.get("vertex_ids")
+    ids = ga(obj, "vertex_ids", None)
     if not isinstance(ids, list) or len(ids) != 2 or not all(eq_poly(it, a, b) for a, b in zip(ids, vals[:2])):
         raise ObFail("%s: vertex_ids are not the first two numbers of the line, in order" % tag)
-    check_pose(it, obj.fields.get("estimate"), cls, vals[nid:nid + npose], "%s estimate" % tag, allow_neg=True)
-    info = obj.fields.get("information")
+    check_pose(it, ga(obj, "estimate", None), cls, vals[nid:nid + npose], "%s estimate" % tag, allow_neg=True)
+    info = ga(obj, "information", None)
     exp = expected_info(vals[nid + npose:], ninfo)
     if not isinstance(info, Arr) or info.shape != (ninfo, ninfo):
         raise ObFail("%s: information has shape %s, expected %dx%d" % (tag, getattr(info, "shape", None), ninfo, ninfo))
@@ -136,7 +136,7 @@ def check_edge_common(it, obj, vals, nid, cls, npose, ninfo, tag):
         for j in range(ninfo):
             if not eq_poly(it, info.data[i][j], exp[i][j]):
                 raise ObFail("%s: information[%d,%d] is not the upper-triangular entry (%d,%d) of the line" % (tag, i, j, min(i, j), max(i, j)))
-    if obj.fields.get("vertices") is not None:
+    if ga(obj, "vertices", None) is not None:
         raise ObFail("%s: a freshly read edge already has vertices" % tag)
 
 
@@ -189,7 +189,7 @@ def file_obligation(variant):
             order.append((tag, vals))
         it.vfs["in.g2o"] = VFile("in.g2o", lines)
         g = it.call_classmethod(ClassRef("Graph"), "from_g2o", ["in.g2o"])
-        vs, es, ps = g.fields.get("_vertices"), g.fields.get("_edges"), g.fields.get("_g2o_params")
+        vs, es, ps = ga(g, "_vertices", None), ga(g, "_edges", None), ga(g, "_g2o_params", None)
         want_v = [(t, v) for t, v in order if t.startswith("VERTEX")]
         want_e = [(t, v) for t, v in order if t.startswith("EDGE")]
         if len(vs) != len(want_v):
@@ -197,11 +197,11 @@ def file_obligation(variant):
         if len(es) != len(want_e):
             raise ObFail("%d edge lines in the file, %d edges in the graph" % (len(want_e), len(es)))
         for k, ((tag, vals), v) in enumerate(zip(want_v, vs)):
-            if not eq_poly(it, v.fields.get("id"), vals[0]):
+            if not eq_poly(it, ga(v, "id", None), vals[0]):
                 raise ObFail("vertex #%d of the graph is not the %d-th vertex line of the file" % (k, k))
-            check_pose(it, v.fields.get("pose"), VOCABULARY[tag][1], vals[1:], "vertex #%d (%s)" % (k, tag))
+            check_pose(it, ga(v, "pose", None), VOCABULARY[tag][1], vals[1:], "vertex #%d (%s)" % (k, tag))
         for k, ((tag, vals), e) in enumerate(zip(want_e, es)):
-            ids = e.fields.get("vertex_ids")
+            ids = ga(e, "vertex_ids", None)
             if not all(eq_poly(it, a, b) for a, b in zip(ids, vals[:2])):
                 raise ObFail("edge #%d of the graph is not the %d-th edge line of the file" % (k, k))
             want_cls = "EdgeOdometry" if VOCABULARY[tag][0] == "odometry" else "EdgeLandmark"
@@ -209,8 +209,8 @@ def file_obligation(variant):
                 raise ObFail("edge #%d (%s) is read as %s" % (k, tag, e.cls))
         if not isinstance(ps, dict) or len(ps) != 2:
             raise ObFail("2 parameter lines in the file, %r parameters in the graph" % (len(ps) if isinstance(ps, dict) else ps))
-        lm = [e for e in es if e.cls == "EdgeLandmark" and isinstance(e.fields.get("offset"), Pose) and e.fields["offset"].cls == "PoseSE3"]
-        if len(lm) != 1 or lm[0].fields["offset"] is not ps[it.hashable(("PARAMS_SE3OFFSET", pvals[0]), None)].fields["value"]:
+        lm = [e for e in es if e.cls == "EdgeLandmark" and isinstance(ga(e, "offset", None), Pose) and ga(e, "offset").cls == "PoseSE3"]
+        if len(lm) != 1 or ga(lm[0], "offset") is not ga(ps[it.hashable(("PARAMS_SE3OFFSET", pvals[0]), None)], "value"):
             raise ObFail("the SE(3) landmark edge is not linked to the offset parameter it names")
         warnings = [e for e in it.events if e[0] == "log"]
         if len(warnings) != junk_count:
@@ -233,7 +233,7 @@ def custom_types_obligation():
 
             def from_g2o(line, params=None):
                 if isinstance(line, str) and line.startswith(tag + " "):
-                    e = Obj("BaseEdge", vertex_ids=[ida, idb], information=None, estimate=None, vertices=None, custom_tag=tag)
+                    e = custom_edge(it, [ida, idb], None, None, None, custom_tag=tag)
                     e.stubs["is_valid"] = lambda: True
                     made.append(e)
                     return e
@@ -248,8 +248,8 @@ def custom_types_obligation():
                  make_line(it, "EDGE_SE2", [ida, idb] + [Poly.var("w%d" % i) for i in range(9)], " ", "\n")]
         it.vfs["c.g2o"] = VFile("c.g2o", lines)
         g = it.call_classmethod(ClassRef("Graph"), "from_g2o", ["c.g2o"], dict(custom_edge_types=types))
-        es = g.fields.get("_edges")
-        tags = [e.fields.get("custom_tag") for e in es]
+        es = ga(g, "_edges", None)
+        tags = [ga(e, "custom_tag", None) for e in es]
         want = ["CUSTOM_B", "CUSTOM_A", "CUSTOM_B", "EDGE_SE2"]
         if tags != want:
             raise ObFail("lines of registered custom edge types %s were read as %s (each registered type must be consulted, in file order, "
@@ -280,12 +280,12 @@ def loaders_obligation():
             g = it.call_function(it.pkg.funcs[name], ["a.g2o"])
             if not isinstance(g, Obj) or g.cls != "Graph":
                 raise ObFail("%s returns %r" % (name, g))
-            for a, b in zip(g.fields["_vertices"], ref.fields["_vertices"]):
+            for a, b in zip(ga(g, "_vertices"), ga(ref, "_vertices")):
                 same_vertex(it, a, b, "%s vs Graph.from_g2o" % name)
-            for a, b in zip(g.fields["_edges"], ref.fields["_edges"]):
+            for a, b in zip(ga(g, "_edges"), ga(ref, "_edges")):
                 same_edge(it, a, b, "%s vs Graph.from_g2o" % name)
-            if len(g.fields["_vertices"]) != 2 or len(g.fields["_edges"]) != 1:
-                raise ObFail("%s loads %d vertices / %d edges from a file with 2 / 1" % (name, len(g.fields["_vertices"]), len(g.fields["_edges"])))
+            if len(ga(g, "_vertices")) != 2 or len(ga(g, "_edges")) != 1:
+                raise ObFail("%s loads %d vertices / %d edges from a file with 2 / 1" % (name, len(ga(g, "_vertices")), len(ga(g, "_edges"))))
         return dict(loaders=loaders)
     return lambda pkg: run_obligation(pkg, fn)
 
